@@ -306,6 +306,12 @@ def run(ctx):
                             o.violated(f, inc, f"count advances by `{txt(inc)}` per connected remainder")
                         else:
                             o.undecided("count update not recognised", f, inc)
+                    elif not J and len(conn) == 1 and isinstance(conn[0].args[0], ast.Name) and any(
+                            isinstance(d_, ast.Assign) and isinstance(d_.value, ast.Call) and txt(d_.value.func) in ("nx.Graph", "networkx.Graph") and d_.value.args
+                            and txt(d_.value.args[0]) in (f"{H}.edges()", f"{H}.edges", f"list({H}.edges())") for d_ in sc.assigns.get(conn[0].args[0].id, [])):
+                        d0 = sc.assigns[conn[0].args[0].id][0]
+                        o.violated(f, d0, f"the working copy `{txt(d0)}` is rebuilt from the EDGES of `{H}`: a vertex of the vertex set that has no edge inside it vanishes, so a "
+                                          "remainder that leaves it isolated is counted as connected (and an edgeless subgraph raises)", shape_free=True)
                     else:
                         o.undecided("per-subset body not recognised", f, lp)
         qq = prog.func("QQ")
